@@ -1,8 +1,9 @@
 package main
 
 // The Dialects list of NEGOTIATE as a value of its own (C04): Marshal, Unmarshal into a fresh value, compare.
-// NegotiateRequest.Unmarshal never reaches the dialect decoder (recorded finding), so the command round trip cannot
-// speak about it.  Registered from its own file (after smbgen.go's init) to keep the SMB files untouched.
+// NegotiateRequest.Unmarshal did not reach the dialect decoder before fixes/C04-negotiate-request-wordcount.diff; the
+// command round trip (smb.rt) covers it now, this op stays for the list on its own (used values, exact capacity).
+// Registered from its own file (after smbgen.go's init) to keep the SMB files untouched.
 
 import (
 	"fmt"
